@@ -186,6 +186,37 @@ def run_generated(ctx, b, profile, n, seed, procs=8, timeout=240, segments=None,
     return dict(dirs=[j[2] for j in jobs], crashes=crashes, stats=stats, by_mode=by_mode)
 
 
+
+def confirm_crashes(ctx, b, profile, seed, crashes, mode_of=None, dir_prefix="confirm"):
+    """A harness process that died while executing a generated history is a crash of the server only if it dies AGAIN when that one
+    history (same seed, same stream index: the generator is deterministic) is executed alone. -> (confirmed, unreproduced).
+    Crashes without a process death (a recovered panic recorded in the trace, directory "") and crashes whose history id cannot be
+    resolved are kept as they are."""
+    confirmed, unrep = [], []
+    for c in crashes:
+        hid, text, d = c
+        if not d or "-" not in str(hid) or len(confirmed) >= 2 or len(confirmed) + len(unrep) >= 6:
+            # once two process deaths have reproduced, the tree does crash: the others are kept without another run each
+            confirmed.append(c)
+            continue
+        try:
+            k = int(str(hid).rsplit("-", 1)[1])
+        except ValueError:
+            confirmed.append(c)
+            continue
+        mode = (mode_of(hid) if mode_of else None) or "direct"
+        try:
+            g2 = run_generated(ctx, b, profile, 1, seed, procs=1, timeout=90, segments=[(mode, k, 1)], dir_prefix="%s-%s" % (dir_prefix, mode))
+            again = bool(g2["crashes"])
+        except Exception:  # noqa
+            again = True
+        (confirmed if again else unrep).append(c)
+    if unrep:
+        ctx.coverage.setdefault("unreproduced_harness_crashes", []).extend({"history": u[0], "output": u[1][-600:]} for u in unrep)
+        ctx.note("T1: %d harness process death(s) did not reproduce when the history was executed alone (recorded in coverage, not reported): %s"
+                 % (len(unrep), ", ".join(str(u[0]) for u in unrep)))
+    return confirmed, unrep
+
 def run_replay(ctx, b, histories, name="replay", timeout=120, mode=None):
     """Executes symbolic histories (list of dicts). Returns dict(dirs=[dir], crashes=[...]).
     mode None: every history in the mode its own "mode" field names (absent = direct); "direct" / "service": all of them in that mode."""
@@ -411,7 +442,9 @@ def run_property(ctx, profile, n, projection, tag_prefixes, crash_is_violation=T
     g = run_generated(ctx, b, profile, n, ctx.seed + seed_offset, segments=[("direct", 0, n_dir), ("service", n_dir, n_svc)])
     judged_dirs += list(g["by_mode"].get("direct", {}).get("dirs", []))
     r2, h2, t2 = judge(ctx, b, g["dirs"], projs)
-    results.update(r2); hist.update(h2); traces.update(t2); crashes += g["crashes"]
+    gc_, _unrep = confirm_crashes(ctx, b, profile, ctx.seed + seed_offset, g["crashes"],
+                                  mode_of=lambda hid_: "service" if str(hid_).startswith("s") else "direct")
+    results.update(r2); hist.update(h2); traces.update(t2); crashes += gc_
     # a panic recovered inside the bubble ends the history with a `P <text>` line: the server crashed on that history, whatever
     # the (truncated) trace looks like to the model
     crashed_ids = set(c[0] for c in crashes)
@@ -669,7 +702,7 @@ def initfile_stage(ctx, n=None, projection="all", seed_offset=None):
     projs = ["all", projection] if projection != "all" else ["all"]
     g = run_generated(ctx, b, INITFILE_PROFILE, n, ctx.seed + seed_offset, dir_prefix="initf")
     results, hist, traces = judge(ctx, b, g["dirs"], projs)
-    crashes = g["crashes"]
+    crashes, _unrep = confirm_crashes(ctx, b, INITFILE_PROFILE, ctx.seed + seed_offset, g["crashes"], dir_prefix="initf-confirm")
 
     def refail_real(hh):
         rr = run_replay(ctx, b, [hh], name="shrink-initf", timeout=60)
